@@ -56,16 +56,26 @@ pub(crate) fn decode_character_string(mut from: &[u8]) -> Result<Cow<'_, [u8]>, 
         return Ok(Cow::Owned(Vec::new()));
     }
 
-    // Remove the initial and trailing " if any.
+    // Remove the initial and trailing " if any, and the escapes added by
+    // `append_character_string`.
     if from[0] == b'"' {
         if from.len() == 1 || from.last() != Some(&b'"') {
             return Err(());
         }
         let len = from.len();
         from = &from[1..len - 1];
+        let mut out = Vec::with_capacity(from.len());
+        let mut bytes = from.iter();
+        while let Some(&b) = bytes.next() {
+            if b == b'\\' {
+                out.push(*bytes.next().ok_or(())?);
+            } else {
+                out.push(b);
+            }
+        }
+        return Ok(Cow::Owned(out));
     }
 
-    // TODO: remove the backslashes if any
     Ok(Cow::Borrowed(from))
 }
 
@@ -358,11 +368,14 @@ fn append_txt_record(
     append_u32(out, ttl_secs);
 
     // Add the strings.
-    if value.len() > MAX_TXT_VALUE_LENGTH {
+    let mut encoded = Vec::with_capacity(value.len() + 2);
+    append_character_string(&mut encoded, value)?;
+    if encoded.len() > MAX_TXT_VALUE_LENGTH {
         return Err(MdnsResponseError::TxtRecordTooLong);
     }
-    let mut buffer = vec![value.len() as u8];
-    append_character_string(&mut buffer, value)?;
+    // The length byte covers the string as it is written (including quotes and escapes).
+    let mut buffer = vec![encoded.len() as u8];
+    buffer.extend_from_slice(&encoded);
 
     append_u16(out, buffer.len() as u16);
     out.extend_from_slice(&buffer);
